@@ -621,7 +621,7 @@ class Tt4Card(SimBase):
             if k in self.wtx_at:
                 self.pending = rsp
                 self.wtx_left = getattr(self, "wtx_count", 1) - 1
-                return self._send([0xF2, 0x01])     # S(WTX) request, WTXM 1
+                return self._send(self._wtx_request())     # S(WTX) request
             frac = getattr(self, "busy_fraction", None)
             if frac:
                 busy = frac * self.announced_fwt()
@@ -651,10 +651,16 @@ class Tt4Card(SimBase):
                 return self._next_piece()
             raise nfc.clf.TimeoutError("unexpected R(ACK)")
         if pcb == 0xF2 and len(cmd) == 2 and self.pending is not None:
+            if cmd[1] & 0x3F != getattr(self, "wtx_wtxm", 1):
+                # ISO/IEC 14443-4 7.3: the response carries the same WTXM.
+                # (b8..b7 "shall be 00"; nfcpy echoes the card's power level
+                # bits there - the model, like cards in the field, does not
+                # look at them, so nothing is demanded of them)
+                raise nfc.clf.TimeoutError("S(WTX) response with another WTXM")
             if getattr(self, "wtx_left", 0) > 0:
                 # the card needs still more time: another S(WTX) request
                 self.wtx_left -= 1
-                return self._send([0xF2, 0x01])
+                return self._send(self._wtx_request())
             rsp, self.pending = self.pending, None
             if rsp == "next-piece":
                 return self._next_piece()
@@ -663,6 +669,11 @@ class Tt4Card(SimBase):
             self.activated = False
             return bytearray([0xC2])
         raise nfc.clf.TimeoutError("unknown block")
+
+    def _wtx_request(self):
+        """S(WTX) request: INF = power level indication (b8..b7, any value is
+        allowed to the card) | WTXM (1..59)"""
+        return [0xF2, (getattr(self, "wtx_power", 0) << 6) | getattr(self, "wtx_wtxm", 1)]
 
     def _send(self, block):
         self.last = list(block)
